@@ -164,6 +164,11 @@ func checkC12(c C12Case) error {
 
 // ---- generator ------------------------------------------------------------------------------
 
+// c12Recursion: whether generated libraries may contain a self-recursive macro. C05 switches it
+// off for its process: a token mutation of `m0(n - 1)` (e.g. `n -- 1`) is recursion without a
+// terminating condition, which the C05 statement places outside its guarantee.
+var c12Recursion = true
+
 type macGen struct {
 	t     *rapid.T
 	stats map[string]bool
@@ -287,7 +292,7 @@ func genC12(t *rapid.T) (C12Case, map[string]bool) {
 	c.Ctx.Set("xs", List(Int(4), Int(5)))
 	nm := rapid.IntRange(1, 4).Draw(t, "nmacros")
 	for i := 0; i < nm; i++ {
-		if i == 0 && g.pick(4, "recursive") == 0 {
+		if i == 0 && c12Recursion && g.pick(4, "recursive") == 0 {
 			// a macro that calls itself (bare name or _self), also as the only macro of its library
 			g.stats["recursive"] = true
 			self := &E{K: "mcall", S: "m0", M: rapid.SampledFrom([]string{"local", "self"}).Draw(t, "recform"), A: []*E{Bin("-", Var("n"), Int(1))}}
